@@ -24,8 +24,9 @@ Reading of the statement that the model implements
   a manually assigned ``default`` stays until the strategy equal to it loses
   its last name (class docstring "Hint"); calling the dict calls the default.
 
-Not generated because the statement is silent: key tuples with duplicates,
-empty key tuples, tuple-valued *keys*, keys that are equal-but-distinct
+Key tuples naming a key twice follow from the same reading (the key was most
+recently assigned at its last position; the result lists it once).
+Not generated because the statement is silent: empty key tuples, tuple-valued *keys*, keys that are equal-but-distinct
 (``1`` / ``True``), unhashable or NaN values, attribute names that collide with
 dict / StrategyDict attributes, ``key2keys`` of a missing key, ``sd.default`` /
 ``sd()`` while no default is defined, ``delattr(sd, "default")``, attributes
@@ -86,6 +87,13 @@ class Model(object):
     return g[0], size
 
   def assign(self, keys, value):
+    # the keys of a tuple count as assigned left to right, so a key given
+    # twice was most recently assigned at its LAST position
+    last_first = []
+    for k in reversed(tuple(keys)):
+      if k not in last_first:
+        last_first.append(k)
+    keys = tuple(reversed(last_first))
     for k in keys:
       self.remove(k)
     g = self.byvalue(value)
@@ -181,6 +189,14 @@ def sd_ops(names, nfuncs):
   return ops
 
 
+def with_repeats(rng, keys):
+  """Now and then name one of the keys a second (third) time."""
+  keys = list(keys)
+  while rng.random() < 0.25:
+    keys.insert(rng.randint(0, len(keys)), rng.choice(keys))
+  return tuple(keys)
+
+
 def random_mkd(rng):
   m = Model()
   ops = []
@@ -195,7 +211,7 @@ def random_mkd(rng):
       else:
         v = rng.choice(BIG_VALUES)
       if rng.random() < 0.4:
-        ks = tuple(rng.sample(BIG_KEYS, rng.randint(1, 4)))
+        ks = with_repeats(rng, rng.sample(BIG_KEYS, rng.randint(1, 4)))
         ops.append(("set", ks, v))
         m.assign(ks, v)
       else:
@@ -222,14 +238,14 @@ def random_sd(rng):
     f = rng.randrange(N_FUNCS)
     if r < 0.30:
       if rng.random() < 0.4:
-        ns = tuple(rng.sample(SD_NAMES, rng.randint(1, 3)))
+        ns = with_repeats(rng, rng.sample(SD_NAMES, rng.randint(1, 3)))
         ops.append(("set", ns, f))
       else:
         ns = (rng.choice(SD_NAMES),)
         ops.append(("set", ns[0], f))
       m.store(ns, funcs[f])
     elif r < 0.50:
-      ns = tuple(rng.sample(SD_NAMES, rng.randint(1, 3)))
+      ns = with_repeats(rng, rng.sample(SD_NAMES, rng.randint(1, 3)))
       ops.append(("strategy", ns, rng.random() < 0.4, f))
       m.store(ns, funcs[f])
     elif r < 0.66:
@@ -280,7 +296,24 @@ def cases(ctx):
     if ctx.mine(i):
       yield ("sd", "small", list(hist))
     i += 1
-  # ---- random longer histories over the larger universes -------------------
+  # ---- key tuples that name a key twice: every 3-tuple over the small keys
+  # with a repetition x both values, after every 2-operation history
+  dups = [t for t in itertools.product(SMALL_KEYS, repeat=3)
+          if len(set(t)) < 3]
+  for pre in itertools.product(mops, repeat=2):
+    for t in dups:
+      for v in SMALL_VALUES:
+        if ctx.mine(i):
+          yield ("mkd", "small", list(pre) + [("set", t, v)])
+        i += 1
+  for pre in itertools.product(sops, repeat=1):
+    for t in itertools.product(SD_SMALL_NAMES, repeat=3):
+      if len(set(t)) < 3:
+        for f in range(2):
+          if ctx.mine(i):
+            yield ("sd", "small", list(pre) + [
+              ("strategy", t, False, f) if (i & 1) else ("set", t, f)])
+          i += 1
   rng = ctx.rng
   for _ in ctx.loop(24000, 400000):
     if rng.random() < 0.55:
@@ -447,6 +480,8 @@ def run_case(ctx, case):
         except Exception as exc:
           raise Mismatch("%s/raised-%s" % (name, type(exc).__name__),
                          error=repr(exc))
+        if len(set(ks)) < len(ks):
+          count(kind + ":set-names-a-key-twice")
         if sd:
           m.store(ks, v)
         else:
@@ -547,6 +582,7 @@ def finish(ctx):
       ("sd:histories-small", 24 ** ctx.pick(3, 4)),
       ("mkd:histories-big", 200), ("sd:histories-big", 200),
       ("mkd:set-single-key", 500), ("mkd:set-key-tuple", 500),
+      ("mkd:set-names-a-key-twice", 500), ("sd:set-names-a-key-twice", 100),
       ("mkd:set-merges-with-equal-value", 500),
       ("mkd:set-merge-equal-but-distinct-value", 50),
       ("mkd:set-reassigns-same-value(recency-reorder)", 200),
